@@ -57,6 +57,9 @@ def run(tier, seed):
     chk.run(c04.order_scenarios("v1", rng, n) + c04.order_scenarios("v2", rng, n), name="order")
     sizes = (5, 6, 7, 8, 9) if tier == "quick" else (5, 6, 7, 8, 9, 10, 12, 16)
     chk.run(c04.hole_scenarios("v1", sizes) + c04.hole_scenarios("v2", sizes), name="holes")
+    # a conditional processor merges the records it skipped back between its results: every match mask of one batch
+    csz = (3, 4) if tier == "quick" else (3, 4, 5, 6)
+    chk.run(dpgen.cond_scenarios("v1", csz) + dpgen.cond_scenarios("v2", csz), name="cond-masks")
     chk.run_driver("fanorder", fanout_order_scenarios(rng, 30 if tier == "quick" else 400), name="fanout-order")
     chk.validate()
     return chk.finish(nontrivial,
